@@ -345,6 +345,9 @@ Definition owned (c : nat * nat * nat) : list (list (nat * nat)) :=
     # 3e. an integrand that raises: threaded assembly must raise like serial assembly does
     _raising(ctx)
 
+    # 3f. ONE long-lived threaded form object assembled for a sequence of different (trial, test) sizes
+    _form_reuse(ctx)
+
     # 4. oracle on real bases: threaded == serial bit for bit, all k
     _oracle_real(ctx)
 
@@ -511,6 +514,34 @@ def _raising(ctx):
                          '(silently incomplete) result',
                          {'Nu': Nu, 'Nv': Nv, 'k': k, 'failing_pair_ij': [bi, bj], 'serial_raised': serial_raised,
                           'threaded_raised': raised, 'threaded_data': None if raised else got[1].tolist()})
+
+
+def _form_reuse(ctx):
+    """history: the same BilinearForm(nthreads=k) object is assembled again and again with other local sizes
+    (equal trial size / other test size, and the reverse); each result must equal a fresh serial assembly"""
+    from skfem.assembly import BilinearForm
+    rng = ctx.rng
+    for k in (2, 3) if ctx.quick() else (1, 2, 3, 5):
+        form = BilinearForm(lambda uu, vv, w: uu * vv, nthreads=k)
+        seq = [(2, 2), (2, 3), (2, 1), (3, 3), (3, 2), (2, 4), (1, 4), (2, 2)]
+        hist = []
+        for Nu, Nv in seq:
+            nt, nq = 2, 1
+            u = Stub(5, [[rng.randrange(5) for _ in range(nt)] for _ in range(Nu)], [1 + j for j in range(Nu)], nq)
+            v = Stub(6, [[rng.randrange(6) for _ in range(nt)] for _ in range(Nv)], [10 * (i + 1) for i in range(Nv)], nq)
+            hist.append([Nu, Nv])
+            serial = BilinearForm(lambda uu, vv, w: uu * vv)._assemble(u, v)
+            ctx.count(('form-reuse', k, tuple(map(tuple, hist))), nontrivial=len(hist) > 1)
+            try:
+                got = form._assemble(u, v)
+            except Exception as e:
+                ctx.fail(f'form-reuse:exception:k={k}', f'a long-lived threaded form raises {type(e).__name__} when assembled again '
+                         f'with other local sizes: {e}', {'k': k, 'history_NuNv': hist})
+                break
+            if not (np.array_equal(got[1], serial[1]) and np.array_equal(got[0], serial[0])):
+                ctx.fail(f'form-reuse!=serial:k={k}', 'a long-lived threaded form assembled again with other local sizes '
+                         'differs from serial assembly', {'k': k, 'history_NuNv': hist, 'serial': serial[1].tolist(), 'got': got[1].tolist()})
+                break
 
 
 def _multiset_perms(items):
